@@ -12,6 +12,8 @@ LEVEL = {
          'byte layout and alignment of realloc are not modelled (element granularity)'),
  'C03': ('Totality theorems: every 32-bit key against every invariant state gives acceptance of a stored entity, absence or the documented debug assertion, never the model\'s UB outcome; acceptance with a matching archetype id implies bit-identity; forged-handle stream aimed by dumps; known finding F3 stated as a _refuted theorem and reported',
          'memory safety is at element granularity of the model; std::alloc trusted'),
+ 'C05': ('Theorems over the model of bind_query_params/bind_one_of: for every world and every well-formed parameter list the emitted arms are exactly the archetypes satisfying the declarative reading, each parameter bound to its own column, ambiguity and no-match errors exactly as stated; the macro crate\'s own modules driven as a library on generated declarations and queries and compared with the model and with the declarative oracle; run-time half (find on an unmatched archetype returns None) through the storage harness',
+         'the binding model is hand-written and tied by differential execution; rustc\'s handling of the emitted arms is exercised by the storage harness worlds only'),
  'C08': ('Freshness theorem from the ghost generation bound, checked-add overflow theorems over the translated version.rs, injectivity of key packing; histories crossing 2^32 through the preset hook',
          'wrapping_version reuse after 2^32-1 releases is the documented exception (C08_wrap_reissues)'),
  'C09': ('Theorems: accepted direct handle designates its dense position with the current version; accepted at issue; survives creates; rejected after any removal (version strictly changes); to_direct validates; the two repaired defects F1/F2 are pinned by translated code facts',
@@ -22,6 +24,10 @@ LEVEL = {
          'the real 2^24 fill is thorough-tier only'),
  'C13': ('Theorem that the clone of an invariant storage is the identical state (with the translated loop bounds); clone audit: identical len/dump/rows/events of original and clone right after cloning, then diverging histories',
          'aliasing between allocations is not expressible in the model (functional values)'),
+ 'C15': ('Theorems: a successful DataWorld::new yields ids equal to the enum-discriminant rule over the cfg-enabled items, pairwise distinct per scope, implicit ids below 256, and the two failure modes are genuine; first id and successor translated from data.rs; generated declarations (explicit ids ascending, descending, colliding, at 254/255) through the real DataWorld::new',
+         'ARCHETYPE_ID/COMPONENT_ID constants and ecs_component_id! as emitted are compared for the harness worlds only'),
+ 'C16': ('Theorems: for every declaration and truth assignment the world data equals that of the erased declaration; disabled query parameters never exclude an archetype and binding restricted to enabled parameters equals binding of the erased query; cfg on OneOf is always an error; differential: every decorated input against its erased twin through the real macro code',
+         'the cfg-probing macro_rules chain and rustc\'s own cfg evaluation are not modelled (the truth assignment is passed in)'),
  'C14': ('Theorems over the bit-level codecs translated from entity.rs/index.rs/slot.rs on every run (all 2^32 keys, all ids, symbolic) plus differential runs of every conversion against the model',
          'the repr(transparent) reference transmutes are only sampled'),
 }
